@@ -3,12 +3,15 @@ package props
 // C16 — only registered RPC names are callable, with exactly their declared parameters.
 
 import (
+	"bytes"
 	"context"
 	"encoding/json"
 	"fmt"
 	"io"
 	"net/http"
+	"net/http/httptest"
 	"os"
+	"os/exec"
 	"reflect"
 	"sort"
 	"strings"
@@ -17,8 +20,10 @@ import (
 	"time"
 	"unicode"
 
+	"github.com/ethereum/go-ethereum/crypto"
 	"github.com/gorilla/websocket"
 	"github.com/vipnode/vipnode/v2/jsonrpc2"
+	"github.com/vipnode/vipnode/v2/jsonrpc2/ws/gorilla"
 	"github.com/vipnode/vipnode/v2/pool"
 	"github.com/vipnode/vipnode/v2/pool/payment"
 	"github.com/vipnode/vipnode/v2/pool/status"
@@ -561,4 +566,116 @@ func TestC16Binary(t *testing.T) {
 	if strings.Contains(p.log(), "panic") {
 		t.Fatalf("pool binary log contains a panic:\n%s", tailLines(p.log(), 60))
 	}
+}
+
+// ---------------------------------------------------------------------------
+// production level, agent side: the reverse service of the `vipnode agent` binary
+
+// FakePoolSvc answers just enough of the pool API for the agent binary to start.
+type FakePoolSvc struct{}
+
+func (FakePoolSvc) Connect(ctx context.Context, sig, id string, nonce int64, req pool.ConnectRequest) (*pool.ConnectResponse, error) {
+	return &pool.ConnectResponse{PoolVersion: "fake"}, nil
+}
+func (FakePoolSvc) Update(ctx context.Context, sig, id string, nonce int64, req pool.UpdateRequest) (*pool.UpdateResponse, error) {
+	return &pool.UpdateResponse{InvalidPeers: []string{}, ActivePeers: []string{}}, nil
+}
+func (FakePoolSvc) Peer(ctx context.Context, sig, id string, nonce int64, req pool.PeerRequest) (*pool.PeerResponse, error) {
+	return &pool.PeerResponse{}, nil
+}
+
+func TestC16AgentBinary(t *testing.T) {
+	rec := vt.For("C16")
+	rec.Rule("production level, agent side: the `vipnode agent` binary (fake node, real WebSocket) connects to a harness pool; the harness then calls the agent's reverse service over that connection with generated names and parameters; oracle: only vipnode_whitelist is callable (exactly one string parameter, anything else -32602), every other name - other exported methods of the agent such as start/stop/wait/updatePeers/addPeers, case variants, pool method names - is -32601; distinct by (name, arity, kinds)")
+	bin, err := vipnodeBinary()
+	if err != nil {
+		t.Fatal(err)
+	}
+	defer os.Remove(bin)
+	dir := tempDir("c16-agent-")
+	defer removeAll(dir)
+	id := nodeIdent(0)
+	keyFile := dir + "/nodekey"
+	if err := os.WriteFile(keyFile, []byte(fmt.Sprintf("%x", crypto.FromECDSA(id.key))), 0o600); err != nil {
+		t.Fatal(err)
+	}
+	srv := &jsonrpc2.Server{}
+	if err := srv.Register("vipnode_", FakePoolSvc{}); err != nil {
+		if err2 := srv.Register("vipnode_", &FakePoolSvc{}); err2 != nil {
+			t.Fatalf("register: %v / %v", err, err2)
+		}
+	}
+	remoteCh := make(chan *jsonrpc2.Remote, 1)
+	up := &gorilla.Upgrader{}
+	ts := httptest.NewServer(http.HandlerFunc(func(w http.ResponseWriter, r *http.Request) {
+		codec, err := up.Upgrade(r, w, nil)
+		if err != nil {
+			return
+		}
+		remote := &jsonrpc2.Remote{Codec: codec, Server: srv, Client: &jsonrpc2.Client{}}
+		remoteCh <- remote
+		remote.Serve()
+	}))
+	defer ts.Close()
+	cmd := exec.Command(bin, "agent", "-vv", "--rpc", "fakenode://"+id.nodeID+"?fullnode=1", "--nodekey", keyFile, "--enode", "enode://"+id.nodeID+"@192.0.2.10:30303", "ws"+strings.TrimPrefix(ts.URL, "http")+"/")
+	cmd.Env = append(os.Environ(), "HOME="+dir)
+	var out bytes.Buffer
+	cmd.Stdout, cmd.Stderr = &out, &out
+	if err := cmd.Start(); err != nil {
+		t.Fatalf("start agent: %v", err)
+	}
+	defer func() { cmd.Process.Kill(); cmd.Wait() }()
+	var remote *jsonrpc2.Remote
+	select {
+	case remote = <-remoteCh:
+	case <-time.After(30 * time.Second):
+		t.Fatalf("the agent binary did not connect; output:\n%s", out.String())
+	}
+	names := []string{"vipnode_whitelist", "vipnode_whitelist", "vipnode_Whitelist", "vipnode_start", "vipnode_stop", "vipnode_wait", "vipnode_updatePeers", "vipnode_addPeers", "vipnode_disconnect",
+		"vipnode_ping", "vipnode_connect", "whitelist", "Whitelist", "agent_whitelist", "vipnode_whitelistx", "vipnode_", "", "admin_addTrustedPeer", "vipnode_enode", "vipnode_peers"}
+	rapid.Check(t, func(rt *rapid.T) {
+		name := rapid.SampledFrom(names).Draw(rt, "name")
+		arity := rapid.IntRange(0, 3).Draw(rt, "arity")
+		var params []interface{}
+		var kinds []string
+		for i := 0; i < arity; i++ {
+			k := "string"
+			if rapid.IntRange(0, 2).Draw(rt, "wrongKind") == 0 {
+				k = rapid.SampledFrom([]string{"int", "bool", "null", "object", "array", "float"}).Draw(rt, "kind")
+			}
+			kinds = append(kinds, k)
+			params = append(params, json.RawMessage(rapid.SampledFrom(c16JSON[k]).Draw(rt, "val")))
+		}
+		ctx, cancel := context.WithTimeout(context.Background(), 20*time.Second)
+		defer cancel()
+		var res json.RawMessage
+		err := remote.Call(ctx, &res, name, params...)
+		code, isRPC := rpcErrCode(err)
+		desc := fmt.Sprintf("%s%v -> err=%v", name, kinds, err)
+		if ctx.Err() != nil {
+			rt.Fatalf("no reply from the agent to %s; agent output:\n%s", desc, tailLines(out.String(), 20))
+		}
+		if name != "vipnode_whitelist" {
+			if !isRPC || code != jsonrpc2.ErrCodeMethodNotFound {
+				rt.Fatalf("the agent's reverse service answered %q, which is not its documented call, with %v (want -32601)", name, err)
+			}
+		} else {
+			ok := arity == 1 && kinds[0] == "string"
+			either := arity == 1 && kinds[0] == "null"
+			switch {
+			case ok:
+				if isRPC && (code == jsonrpc2.ErrCodeMethodNotFound || code == jsonrpc2.ErrCodeInvalidParams) {
+					rt.Fatalf("vipnode_whitelist with one string parameter was refused: %v", err)
+				}
+			case either:
+			default:
+				if !isRPC || code != jsonrpc2.ErrCodeInvalidParams {
+					rt.Fatalf("vipnode_whitelist with parameters %v must be answered -32602, got %v", kinds, err)
+				}
+			}
+		}
+		rec.Case("agentbin|"+desc, name != "vipnode_whitelist" || arity != 1, []string{"agent-binary"}, func() interface{} {
+			return map[string]interface{}{"level": "agent binary reverse service", "probe": desc}
+		})
+	})
 }
